@@ -2,7 +2,7 @@
 From Coq Require Import List ZArith Bool Lia.
 From BLB Require Import Gen.Consts.
 From BLB Require Cluster.Model.
-From BLB Require Import C14.Model C14.Witness C14.Proofs C14.Run C14.Late C14.InvFrame C14.InvStore C14.InvVer.
+From BLB Require Import C14.Model C14.Witness C14.Proofs C14.Run C14.Late C14.InvFrame C14.InvStore C14.InvVer C14.InvPool C14.InvRound C14.InvTract C14.InvFence C14.InvContent.
 Import ListNotations.
 Open Scope Z_scope.
 
@@ -153,3 +153,47 @@ Example held_versions_example :
   length (filter (fun pe => Cluster.Model.k_kind (p_rpc pe) =? K_Write) (s_pool st)) = 2%nat /\
   snd (ts_setversion (run_state_fx all_fix init_state (firstn 22 w_f6)) 1 1 (0, 0) 2 None) = cl_NoError.
 Proof. vm_compute. repeat split; reflexivity. Qed.
+
+(* [FULL] after_move_writes_refused, run level, the code as it is and any switches with the commit version check fx6 and the client repair fx14: for every schedule made of setup events 1 2 20 21 22 followed by run-phase events 3 6 7 9 10 11 80 30 31 82 22 in any order and number, that is client writes with or without location cache, rounds, third-party FixVersion, every RPC decision deliver lose fail duplicate, restarts, leader changes, heartbeats, reads, in the reached state every acknowledged write of a tract had started when CommitRSChunk of that tract was applied, so no write that starts after the move is ever acknowledged. This closes the cached-writer case, the fencing replica is a stat'ed source bumped above every version a client holds *)
+Theorem after_move_writes_refused :
+  forall fx setup evs, fx6 fx = true -> fx14 fx = true ->
+    forallb ev_setup setup = true -> forallb ev_run evs = true ->
+    after_ok (run_state_fx fx init_state (setup ++ evs)) = true.
+Proof. exact after_ok_reachable. Qed.
+Print Assumptions after_move_writes_refused.
+
+(* [FULL] after_move_writes_refused seen from the writer, same schedules: a client write that started when its tract already had an RS pointer is, in every reachable state, still waiting for StatBlob or GetTracts, or holds a Write result that is not OK from a replica whose version exceeds the version of its location entry and of every pending Write, or waits for ReportBadTS or FixVersion with a final error *)
+Theorem late_writer_never_acknowledged :
+  forall fx setup evs w, fx6 fx = true -> fx14 fx = true ->
+    forallb ev_setup setup = true -> forallb ev_run evs = true ->
+    let st := run_state_fx fx init_state (setup ++ evs) in
+    In w (s_wops st) -> wo_late w = true ->
+    has_rs st (w_tk w) /\ (wo_phase w = 4 -> wo_final w <> cl_NoError) /\
+    (wo_phase w = 3 -> exists h x, fenced st (w_tk w) h /\ In (h, x) (wo_res w) /\ x <> cl_NoError).
+Proof. exact late_writer_is_doomed. Qed.
+Print Assumptions late_writer_never_acknowledged.
+
+(* [FULL] run-level invariants behind the clause, same schedules: location entries bounded by the durable version DInv, outstanding calls of a round are exactly the expected ones and a pending CommitRSChunk means every conditional bump succeeded RInv, packed tracts are eligible and have a stat'ed source TInv, fence and acknowledgement bookkeeping FInv *)
+Theorem move_invariants_hold :
+  forall fx setup evs, fx6 fx = true -> fx14 fx = true ->
+    forallb ev_setup setup = true -> forallb ev_run evs = true ->
+    Inv4 fx (run_state_fx fx init_state (setup ++ evs)).
+Proof. exact Inv4_reachable. Qed.
+Print Assumptions move_invariants_hold.
+
+(* non-vacuity: schedule f14 is 25 setup events followed by run-phase events, ends with 6 applied commits and 10 acknowledged writes, and after 70 events a write that started after the commit is in progress *)
+Example after_move_example :
+  forallb ev_setup (firstn 25 w_f14) = true /\ forallb ev_run (skipn 25 w_f14) = true /\
+  length (s_commits (run_state_fx all_fix init_state w_f14)) = 6%nat /\
+  length (s_acked (run_state_fx all_fix init_state w_f14)) = 10%nat /\
+  existsb wo_late (s_wops (run_state_fx all_fix init_state (firstn 70 w_f14))) = true.
+Proof. vm_compute. repeat split; reflexivity. Qed.
+
+(* [PARTIAL] racing_write_trichotomy for the repaired model, run level, every schedule of setup events (setup writes of positive length) followed by run-phase events, GIVEN the provenance of the packed pieces along the run (src_run: whenever a CommitRSChunk is outstanding, the item it will read from the piece is the write list of a stat'ed source of that tract, open case I2): every acknowledged write of a tract is contained in the packed copy its commit recorded, whether it was acknowledged before or after the commit. Proved without further assumptions inside: every acknowledged write is in the write list of every durable host, a Write answered OK was applied, the source replica keeps the packed content for good because it is fenced *)
+Theorem racing_write_trichotomy_given_piece_provenance_partial :
+  forall fx setup evs, fx6 fx = true -> fx14 fx = true ->
+    forallb ev_setup2 setup = true -> forallb ev_run evs = true ->
+    src_run fx (run_state_fx fx init_state setup) evs ->
+    tri_ok (run_state_fx fx init_state (setup ++ evs)) = true.
+Proof. exact tri_given_sources. Qed.
+Print Assumptions racing_write_trichotomy_given_piece_provenance_partial.
